@@ -192,6 +192,20 @@ def run(ctx):
                 if by_key[(a, E, b)] != ref:
                     ctx.violation("below_1_deg_treated_as_1_deg", {"kind": "lowbeta", "ev": [b, a, E]}, "bit-identical to beta = 1 deg", "differs")
     ctx.tick(nb)
+    # the same clause for detectors off the 525 km reference orbit (the altitude rescaling must use the clamped angle too)
+    import nuspacesim.simulation.eas_optical.cphotang as cp
+
+    kernels()
+    for h in (33.0, 1000.0):
+        kh = cp.CphotAng(h)
+        for a, E in itertools.product([0.0, 2.0, 11.0], [1e-2, 1.0]):
+            with np.errstate(all="ignore"):
+                ref = kh.run(np.float64(one), np.float64(a), np.float64(E), 0.0, 0.0, None)
+                for b in [x for x in bs if x < one]:
+                    r = kh.run(np.float64(b), np.float64(a), np.float64(E), 0.0, 0.0, None)
+                    ctx.tick(1, ("lowbeta_det", h))
+                    if (np.float64(r[0]).tobytes(), np.float32(r[1]).tobytes()) != (np.float64(ref[0]).tobytes(), np.float32(ref[1]).tobytes()):
+                        ctx.violation("below_1_deg_treated_as_1_deg", {"kind": "lowbeta_det", "h": h, "ev": [b, a, E]}, [float(ref[0]), float(ref[1])], [float(r[0]), float(r[1])])
     v, n, pinned = zsteps_conformance()
     ctx.tick(n, ("zsteps", pinned))
     ctx.cov["zsteps"] = {"cases": n, "source_is_pinned": pinned, "source_sha256": zb.source_sha()}
@@ -212,6 +226,17 @@ def replay(case):
         r1 = evaluate((b, a, E))
         r2 = evaluate((math.radians(1.0), a, E))
         return [] if r1[6] == r2[6] else [("below_1_deg_treated_as_1_deg", "bit-identical to beta = 1 deg", "differs")]
+    if k == "lowbeta_det":
+        import nuspacesim.simulation.eas_optical.cphotang as cp
+
+        kernels()
+        kh = cp.CphotAng(case["h"])
+        b, a, E = case["ev"]
+        with np.errstate(all="ignore"):
+            ref = kh.run(np.float64(math.radians(1.0)), np.float64(a), np.float64(E), 0.0, 0.0, None)
+            r = kh.run(np.float64(b), np.float64(a), np.float64(E), 0.0, 0.0, None)
+        same = (np.float64(r[0]).tobytes(), np.float32(r[1]).tobytes()) == (np.float64(ref[0]).tobytes(), np.float32(ref[1]).tobytes())
+        return [] if same else [("below_1_deg_treated_as_1_deg", [float(ref[0]), float(ref[1])], [float(r[0]), float(r[1])])]
     if k == "median":
         tier = case["tier"]
         evs = list(itertools.product(beta_alphabet(tier), alt_alphabet(tier), energy_alphabet(tier)))
